@@ -7,7 +7,10 @@ the documented layout of certificate block v1 / v2.1, and a state machine of the
                     silicon revision of the device table, "latest" included, x every entry point that takes a revision; the RoT
                     type of a case is the one the table gives for THAT revision); it also enumerates histories of the
                     certificate blocks (Build / Export / Parse / SetUserData / Export ...) and of key files (Write; Read by
-                    path; Rewrite; Read by path again).
+                    path; Rewrite; Read by path again); and CONSTRUCTION HISTORIES of one table object (mode "tab": every
+                    order of filling 1..4 slots of RKHTv1 / CertBlockV1 by index, every single replacement at every position,
+                    append / replace / clear-and-refill of the HAB and AHAB SRK tables; objects that start empty, from a key
+                    list or parsed) - the value after ANY history is the documented construction over the FINAL contents.
   MC (RotMC)      : the state machine with small constants; RotMC_asbuilt.cfg is the I-spec of the cached ISK signature (TLC
                     predicts the stale signature, never a verdict).
   Python          : evaluates every emitted term INDEPENDENTLY (hashlib over numbers taken from `cryptography` key objects),
@@ -655,6 +658,269 @@ def replay_cb1(job):
     return {"id": tid, "fam": "", "gen": beh.get("gen"), "ev": evs}
 
 
+# ------------------------------------------------------------------ construction histories of ONE table object
+NA = {"k": "na", "v": [], "msg": ""}
+
+
+def try_obs(fn):
+    try:
+        return val(fn())
+    except Exception as x:  # noqa: BLE001 - recorded, decided by the spec
+        return fail(x)
+
+
+def rkh_of(k):
+    a, b = material(kname(k))
+    return hashlib.sha256(a + b).digest()
+
+
+def make_cb1(der, table):
+    """A v1 certificate block written by hand along the documented layout (one certificate): what a parsed object is parsed from."""
+    entry = der + bytes(-len(der) % 4)
+    body = struct.pack("<4s2H6I", b"cert", 1, 0, 32, 0, 0, 0, 1, 4 + len(entry)) + struct.pack("<I", len(entry)) + entry + table
+    return body + bytes(-len(body) % 16)
+
+
+def tab_cert(k, form):
+    from spsdk.crypto.certificate import Certificate
+
+    return Certificate.load(kfile(kname(k), "ca.der" if form == "ca" else "crt.der"))
+
+
+def tab_start(a, env, pick=0):
+    fl, origin, init = a["fl"], a["origin"], a["init"]
+    image = ev(a["image"], env)
+    if fl in ("pfr1", "pfr21"):  # a CMPA page object of a family of that RoT type (the families take turns)
+        from spsdk.pfr.pfr import CMPA
+
+        fams = families()[("cert_block_1" if fl == "pfr1" else "cert_block_21", "pfr")]
+        return CMPA(fams[pick % len(fams)])
+    if fl == "rkht1":
+        from spsdk.utils.crypto.rkht import RKHTv1
+
+        if origin == "new":
+            return RKHTv1([])
+        if origin == "keys":
+            return RKHTv1.from_keys([tab_cert(s["k"], "crt") for s in init])
+        return RKHTv1.parse(image)
+    if fl == "cb1":
+        from spsdk.utils.crypto.cert_blocks import CertBlockV1
+
+        if origin == "new":
+            return CertBlockV1()
+        with open(kfile(kname(a["cert"]), "crt.der"), "rb") as fh:
+            return CertBlockV1.parse(make_cb1(fh.read(), image))
+    if fl == "hab":
+        from spsdk.image.secret import SrkTable
+
+        return SrkTable() if origin == "new" else SrkTable.parse(image)
+    from spsdk.crypto.keys import PublicKey
+    from spsdk.image.ahab.ahab_srk import SRKRecord, SRKRecordV2, SRKTable, SRKTableV2
+
+    cls = SRKTableV2 if fl == "ahab2" else SRKTable
+    if origin == "new":
+        return cls()
+    if origin == "parsed":
+        return cls.parse(image)
+    pubs = [(PublicKey.load(kfile(kname(s["k"]), "pub.pem")), 0x80 if s["ca"] else 0) for s in init]
+    if fl == "ahab2":
+        return cls([SRKRecordV2.create_from_key(k, srk_flags=f, srk_id=i) for i, (k, f) in enumerate(pubs)])
+    return cls([SRKRecord.create_from_key(k, srk_flags=f) for k, f in pubs])
+
+
+def tab_write(fl, obj, a):
+    """One call of the builder's public incremental API."""
+    kind = a["a"]
+    if kind == "SetAll":
+        return  # the list is handed over with the export itself (ComputeT)
+    if kind == "ClearT":
+        obj.clear()
+    elif kind == "AddCertificate":
+        obj.add_certificate(tab_cert(a["k"], "crt"))
+    elif kind == "SetSlot":
+        i, k, form = a["i"] - 1, a["k"], a["form"]
+        if fl == "rkht1":
+            obj.set_rkh(i, rkh_of(k))
+        elif fl == "cb1":
+            obj.set_root_key_hash(i, rkh_of(k) if form == "hash" else tab_cert(k, form))
+        elif fl == "hab":
+            from spsdk.image.secret import SrkItem
+
+            obj[i] = SrkItem.from_certificate(tab_cert(k, a["form"]))
+        else:
+            raise Machinery(f"SetSlot on {fl}")
+    elif kind == "AppendSlot":
+        if fl == "hab":
+            from spsdk.image.secret import SrkItem
+
+            obj.append(SrkItem.from_certificate(tab_cert(a["k"], a["form"])))
+        else:
+            from spsdk.crypto.keys import PublicKey
+
+            obj.add_record(PublicKey.load(kfile(kname(a["k"]), "pub.pem")), srk_flags=0x80 if a["form"] == "pubca" else 0)
+    else:
+        raise Machinery(f"action {kind}")
+
+
+def tab_observe(fl, obj, a):
+    """Everything the object hands out: the value, the table it holds, the fuse words, the value of the exported and re-parsed object."""
+    o = {"got": NA, "tbl": NA, "fuses": NA, "parsed": NA, "f": EMPTY_F, "fieldLen": 0}
+    if fl in ("pfr1", "pfr21"):
+        from spsdk.crypto.keys import PublicKey
+
+        reg = obj.registers.find_reg("ROTKH")
+        o["fieldLen"] = reg.width // 8
+        o["got"] = try_obs(lambda: obj.export(keys=[PublicKey.load(kfile(kname(k), "pub.pem")) for k in a["keys"]], draw=False)[reg.offset:reg.offset + reg.width // 8])
+    elif fl == "rkht1":
+        from spsdk.utils.crypto.rkht import RKHTv1
+
+        o["got"] = try_obs(obj.rkth)
+        o["tbl"] = try_obs(obj.export)
+        o["parsed"] = try_obs(lambda: RKHTv1.parse(obj.export()).rkth())
+    elif fl == "cb1":
+        from spsdk.utils.crypto.cert_blocks import CertBlockV1
+
+        o["got"] = try_obs(lambda: obj.rkth)
+        o["tbl"] = try_obs(lambda: (lambda t: t + bytes(max(0, 128 - len(t))))(b"".join(obj.rkh)))
+        o["fuses"] = try_obs(lambda: b"".join(w.to_bytes(4, "little") for w in obj.rkth_fuses))
+        if a["index"] > 0:  # the certificate's key is in the table: the block can be exported
+            ck = a["keys"][a["index"] - 1]
+            with open(kfile(kname(ck), "crt.der"), "rb") as fh:
+                der = fh.read()
+            try:
+                data = obj.export()
+                o["f"] = exec_cb1(data, der, rkh_of(ck))
+                o["parsed"] = try_obs(lambda: CertBlockV1.parse(data).rkth)
+            except Exception as x:  # noqa: BLE001
+                o["parsed"] = fail(x)
+    elif fl == "hab":
+        from spsdk.image.secret import SrkTable
+
+        o["got"] = try_obs(obj.export_fuses)
+        o["tbl"] = try_obs(obj.export)
+        o["fuses"] = try_obs(lambda: b"".join(struct.pack("<I", obj.get_fuse(i)) for i in range(8)))
+        o["parsed"] = try_obs(lambda: SrkTable.parse(obj.export()).export_fuses())
+    else:
+        def value():
+            obj.update_fields()
+            return obj.compute_srk_hash()
+
+        o["got"] = try_obs(value)
+        o["tbl"] = try_obs(obj.export)
+        o["parsed"] = try_obs(lambda: type(obj).parse(obj.export()).compute_srk_hash())
+    return o
+
+
+def replay_tab(job):
+    tid, beh = job
+    env = Env()
+    fl = beh["scen"]["fl"]
+    evs, obj = [], None
+    for a in beh["hist"]:
+        e = {k: v for k, v in a.items() if k not in ("term", "table")}
+        try:
+            if a["a"] == "StartT":
+                obj = tab_start(a, env, tid)
+            elif a["a"] == "ComputeT":
+                e.update({"term": a["term"], "table_term": a["table"], "want": list(ev(a["term"], env)), "table_want": list(ev(a["table"], env))})
+                e.update(tab_observe(fl, obj, a))
+            else:
+                tab_write(fl, obj, a)
+        except Machinery:
+            raise
+        except Exception as x:  # noqa: BLE001 - a documented write that is refused is an observation (no spec action matches)
+            e["crash"] = fail(x)["msg"]
+            evs.append(e)
+            break
+        evs.append(e)
+    return {"id": tid, "fam": "", "gen": beh.get("gen"), "scen": beh["scen"], "ev": evs}
+
+
+def tab_class(evs, upto):
+    """How the object was built up to event `upto`: origin + what kinds of writes happened (part of the finding key)."""
+    origin, filled, tags = "new", set(), set()
+    for e in evs[:upto + 1]:
+        if e["a"] == "StartT":
+            origin = e["origin"]
+            filled = set(range(1, len(e["init"]) + 1))
+        elif e["a"] == "SetSlot":
+            if e["i"] in filled:
+                tags.add("replace")
+            elif any(j > e["i"] for j in filled):
+                tags.add("out-of-order")
+            filled.add(e["i"])
+        elif e["a"] == "AppendSlot":
+            tags.add("append")
+            filled.add(len(filled) + 1)
+        elif e["a"] == "ClearT":
+            tags.add("clear")
+            filled = set()
+        elif e["a"] == "SetAll":
+            if filled:
+                tags.add("re-export")
+            filled = set(range(1, len(e["keys"]) + 1))
+        elif e["a"] == "ComputeT" and e is not evs[upto]:
+            tags.add("read-on-the-way")
+    return origin + "".join("+" + t for t in sorted(tags)) if tags else origin + "+in-order"
+
+
+def tab_short(e):
+    a = e["a"]
+    if a == "StartT":
+        return f"{e['origin']}({','.join(str(x['k']['id']) for x in e['init'])})"
+    if a == "SetSlot":
+        return f"set[{e['i'] - 1}]={e['k']['cls']}#{e['k']['id']}"
+    if a == "AppendSlot":
+        return f"append({e['k']['cls']}#{e['k']['id']})"
+    if a == "AddCertificate":
+        return f"add_certificate(#{e['k']['id']})"
+    if a == "SetAll":
+        return f"keys=({','.join(str(k['id']) for k in e['keys'])})"
+    return {"ClearT": "clear()", "ComputeT": "read"}.get(a, a)
+
+
+def canary_tab(behs):
+    """Canaries of the history lane, all made from a SPEC-GENERATED history and independently evaluated terms (never from what the code under
+    test returned): the good observation is accepted; the values of a builder that INSERTS instead of replacing (the earlier slots shift),
+    a history with its last write lost, and a refused write are rejected."""
+    b = next(x for x in behs if x["scen"]["fl"] == "rkht1" and x["scen"]["origin"] == "new" and x["scen"]["n"] == 3 and x["scen"]["repl"] == 0
+             and not x["scen"]["peek"] and [e["i"] for e in x["hist"] if e["a"] == "SetSlot"] == [2, 1, 3])
+    env = Env()
+    evs = []
+    for a in b["hist"]:
+        e = {k: v for k, v in a.items() if k not in ("term", "table")}
+        if a["a"] == "ComputeT":
+            want, table = ev(a["term"], env), ev(a["table"], env)
+            e.update({"term": a["term"], "table_term": a["table"], "want": list(want), "table_want": list(table), "got": val(want), "tbl": val(table),
+                      "fuses": NA, "parsed": val(want), "f": EMPTY_F, "fieldLen": 0})
+        evs.append(e)
+    good = {"id": "canary-tab-good", "ev": evs}
+    # the same calls on a builder whose write is list.insert(index, hash): 2, 1, 3 -> [k1, 0, k3, k2]
+    lst = []
+    for a in b["hist"]:
+        if a["a"] == "SetSlot":
+            i = a["i"] - 1
+            lst.extend([bytes(32)] * (i - len(lst)))
+            lst.insert(i, rkh_of(a["k"]))
+    shifted = b"".join(lst)[:128].ljust(128, b"\0")
+    bad1 = json.loads(json.dumps(good))
+    bad1["id"] = "canary-tab-shift"
+    bad1["ev"][-1].update({"got": val(hashlib.sha256(shifted).digest()), "tbl": val(shifted), "parsed": val(hashlib.sha256(shifted).digest())})
+    bad2 = json.loads(json.dumps(good))
+    bad2["id"] = "canary-tab-lostwrite"
+    del bad2["ev"][-2]
+    bad3 = json.loads(json.dumps(good))
+    bad3["id"] = "canary-tab-refused"
+    bad3["ev"][2]["crash"] = "SPSDKError: refused"
+    bad3["ev"] = bad3["ev"][:3]
+    bad4 = json.loads(json.dumps(good))
+    bad4["id"] = "canary-tab-table"
+    bad4["ev"][-1]["tbl"]["v"][40] ^= 4
+    if shifted == bytes(good["ev"][-1]["table_want"]):
+        raise Machinery("history canary: the shifted table equals the documented one")
+    return [good, bad1, bad2, bad3, bad4], {"canary-tab-shift": "value", "canary-tab-lostwrite": "term", "canary-tab-refused": "refused", "canary-tab-table": "table"}
+
+
 # ------------------------------------------------------------------ key files: write, read by path, rewrite, read again
 def replay_files(job):
     tid, beh, pick = job
@@ -853,7 +1119,16 @@ def finding_key(t, matched, evname, why):
     if evname in ("Build1", "Export1", "Parse1"):
         b = evs[0]
         return f"C03/cert_block_1/{evname[:-1].lower()}/{key_class(b['keys'])}/{why}"
+    if evname in TAB_EVENTS:
+        sc = t["scen"]
+        rot = {"rkht1": "cert_block_1", "cb1": "cert_block_1", "hab": "srk_table_hab", "ahab": "srk_table_ahab", "ahab2": "srk_table_ahab_v2",
+               "pfr1": "cert_block_1", "pfr21": "cert_block_21"}[sc["fl"]]
+        at = min(matched, len(evs) - 1)
+        return f"C03/{rot}/history/{sc['fl']}/{tab_class(evs, at)}/{evname}/{sc['cls']}x{len(evs[at].get('keys', [])) or sc['n']}/{why}"
     return f"C03/{evname}/{why}"
+
+
+TAB_EVENTS = ("StartT", "SetSlot", "AppendSlot", "ClearT", "AddCertificate", "SetAll", "ComputeT")
 
 
 def lean_trace(t):
@@ -870,7 +1145,10 @@ def slug(msg):
 
 def slim(t):
     """Replay witness: the trace without the bulky terms."""
-    return {"id": t["id"], "fam": t.get("fam", ""), "gen": t.get("gen"), "ev": [{k: v for k, v in e.items() if k not in ("term", "rkth_term", "table_term")} for e in t["ev"]]}
+    out = {"id": t["id"], "fam": t.get("fam", ""), "gen": t.get("gen"), "ev": [{k: v for k, v in e.items() if k not in ("term", "rkth_term", "table_term", "image")} for e in t["ev"]]}
+    if "scen" in t:
+        out["scen"] = t["scen"]
+    return out
 
 
 def gen(mode, menu, depth, extra="none", workers=2, timeout=600):
@@ -920,6 +1198,42 @@ def canary_dev(devcases):
         out.append({"id": "canary-dev-wrongtype", "ev": [bad2]})
         expect["canary-dev-wrongtype"] = "device"
     return out, expect, bool(pair)
+
+
+def tab_lane(menu, quick):
+    """The construction-history lane, run beside the other generators: TLC generates the histories, they are replayed on the real objects in this
+    process (a millisecond each), TLC decides them (the lane's canaries ride in the same batch)."""
+    import time
+
+    t0 = time.time()
+    g = gen("tab", menu, 1, workers=2, timeout=1500)
+    tabs = [dict(j, gen=[menu, 1]) for j in g.json_prints() if j["mode"] == "tab"]
+    t1 = time.time()
+    # the history lane must hold what it is there for: per indexed builder EVERY order of filling 2, 3 and 4 slots and a replacement of every
+    # slot; append / replace / clear for the list-like builders
+    orders = {}
+    for b in tabs:
+        sc = b["scen"]
+        if sc["fl"] in ("rkht1", "cb1") and sc["origin"] == "new" and sc["repl"] == 0 and not sc["peek"] and sc["sel"] == list(range(1, sc["n"] + 1)):
+            orders.setdefault((sc["fl"], sc["n"]), set()).add(tuple(e["i"] for e in b["hist"] if e["a"] == "SetSlot"))
+    short = [(k, len(x)) for k, x in sorted(orders.items()) if len(x) != {1: 1, 2: 2, 3: 6, 4: 24}[k[1]]]
+    repl = {(b["scen"]["fl"], b["scen"]["n"], b["scen"]["repl"]) for b in tabs if b["scen"]["repl"]}
+    if len(orders) != 8 or short or any((fl, n, j) not in repl for fl in ("rkht1", "cb1", "hab") for n in (2, 3, 4) for j in range(1, n + 1)) \
+            or not all(any(b["scen"]["fl"] == fl and b["scen"]["clear"] for b in tabs) for fl in ("ahab", "ahab2")) \
+            or not all(any(b["scen"]["fl"] == fl for b in tabs) for fl in ("pfr1", "pfr21")):
+        raise Machinery(f"history lane incomplete: orders {sorted((k, len(x)) for k, x in orders.items())}, {len(repl)} replacement classes")
+    traces = [replay_tab((5000000 + i, b)) for i, b in enumerate(tabs)]
+    t2 = time.time()
+    canaries, _ = canary_tab(tabs)
+    lean = canaries + [lean_trace(t) for t in traces]
+    parts = [lean] if quick else [lean[k:k + 6000] for k in range(0, len(lean), 6000)]
+    rej, states = {}, 0
+    for part in parts:
+        rj, r = tlc.tv("C03", "RotTrace", part, heap="8g", timeout=3000)
+        rej.update(rj)
+        states += r.distinct
+    say(f"[C03] history lane: {len(tabs)} histories generated {t1 - t0:.1f}s, replayed {t2 - t1:.1f}s, decided {time.time() - t2:.1f}s")
+    return g, (tabs, traces, rej, states)
 
 
 def run(tier):
@@ -974,9 +1288,12 @@ def run(tier):
            bg("cb1", lambda: gen("cb1", menu, 3 if quick else 4, workers=1 if quick else 2, timeout=1500)),
            bg("files", lambda: gen("files", menu, 3 if quick else 5, workers=1 if quick else 2, timeout=1500)),
            bg("dev", lambda: gen("dev", menu, 1, workers=1, timeout=1500)),
+           bg("tabrun", lambda: tab_lane(menu, quick)),
            bg("mc", lambda: tlc.mc("C03", "RotMC", "RotMC.cfg", workers=2 if quick else 4, heap="6g", timeout=900, env={"C03_DEVICES": "RotMC_devices.ndjson"},
                                    require_actions=("LCompute", "LComputeFor", "LWriteFile", "LReadByPath", "LBuild21", "LExport21", "LParse21", "LSetUserData",
                                                     "LSetConstraints", "LBuild1", "LExport1", "LParse1", "LSetImageLength"))),
+           bg("mctab", lambda: tlc.mc("C03", "RotMC", "RotMC_tab.cfg", workers=2, heap="4g", timeout=900, env={"C03_DEVICES": "RotMC_devices.ndjson"},
+                                      require_actions=("LStartT", "LSetSlot", "LAppendSlot", "LClearT", "LAddCertificate", "LSetAll", "LComputeT"))),
            bg("asbuilt", lambda: tlc.run("C03", "RotMC", "RotMC_asbuilt.cfg", workers=1, heap="4g", timeout=900, env={"C03_DEVICES": "RotMC_devices.ndjson"}))]
     if not quick:  # longer histories over the small menus (the full menus are exhausted to depth 3)
         ths.append(bg("cb21-deep", lambda: gen("cb21", "small", 5, workers=2, timeout=1500)))
@@ -984,13 +1301,14 @@ def run(tier):
         th.join()
     if errs:
         raise errs[0]
-    for name in ("case", "cb21", "cb1", "files", "dev", "mc") + (() if quick else ("cb21-deep",)):
+    res["tab"], res["tablane"] = res["tabrun"]
+    for name in ("case", "cb21", "cb1", "files", "dev", "tab", "mc", "mctab") + (() if quick else ("cb21-deep",)):
         v.add_mc(res[name])
     ab = res["asbuilt"]
     v.extra["ispec_prediction"] = ("RotMC_asbuilt (SigCache = TRUE, the signature is only made when there is none): TLC " +
                                    (f"violates {ab.violated} - the stale ISK signature after a field change is predicted" if ab.violated == "FreshSignature"
                                     else f"reports {ab.violated or 'no violation'} (drift: the as-built model no longer shows the defect)"))
-    say(f"[C03] GEN/MC done {v.timer.s()}s: " + ", ".join(f"{k}={res[k].distinct}" for k in ("case", "cb21", "cb1", "files", "dev", "mc")))
+    say(f"[C03] GEN/MC done {v.timer.s()}s: " + ", ".join(f"{k}={res[k].distinct}" for k in ("case", "cb21", "cb1", "files", "dev", "tab", "mc", "mctab")))
 
     cases = [(j["hist"][0]["c"], j["hist"][0]["term"]) for j in res["case"].json_prints() if j["mode"] == "case"]
     depths = {"cb21": 3, "cb1": 3 if quick else 4, "files": 3 if quick else 5}
@@ -998,6 +1316,7 @@ def run(tier):
     if not quick:
         behs["cb21"] += [dict(j, gen=["small", 5]) for j in res["cb21-deep"].json_prints() if j["mode"] == "cb21"]
     devcases = [j["hist"][0] for j in res["dev"].json_prints() if j["mode"] == "dev"]
+    tabs, tab_traces, tab_rej, tab_tv = res["tablane"]
     # the device sweep must be complete: every (family, revision name) of the table whose RoT type the property names, through Rot (value
     # and table) and through the command line
     need = {(d["fam"], x, p) for d in devs for x in d["revs"] + ["latest"] for p in ("rot", "rot_table", "cli")
@@ -1005,7 +1324,7 @@ def run(tier):
     have = {(e["fam"], e["rev"], e["c"]["path"]) for e in devcases}
     if not need or need - have:
         raise Machinery(f"device sweep incomplete: {len(need - have)} of {len(need)} (family, revision, entry point) missing, e.g. {sorted(need - have)[:3]}")
-    if len(cases) < 2000 or min(len(b) for b in behs.values()) < 50:
+    if len(cases) < 2000 or min(len(b) for b in behs.values()) < 50 or len(tabs) < 500:
         raise Machinery(f"generator emitted too little: {len(cases)} cases, " + str({m: len(b) for m, b in behs.items()}))
     n_anchor = anchor_check(cases)
     v.extra["anchors"] = f"{n_anchor} golden values (stored hashes of the repository's test keys, HAB / AHAB tables) reproduced by the spec's terms"
@@ -1028,14 +1347,16 @@ def run(tier):
         hj = [(base + i, b, 0 if quick else i) for i, b in enumerate(behs[m])]
         traces += pmap(fn, hj, chunksize=8)
         base += 1000000
-    say(f"[C03] histories replayed {v.timer.s()}s: " + str({m: len(b) for m, b in behs.items()}))
+    traces += tab_traces
+    say(f"[C03] histories replayed {v.timer.s()}s: " + str(dict({m: len(b) for m, b in behs.items()}, tab=len(tabs))))
     v.count(len(traces))
     for t in traces:
         if any(e.get("got", {}).get("k") == "val" for e in t["ev"]):
-            v.nontrivial(sha([[{k: x for k, x in e.items() if k in ("a", "c", "fam", "rev", "keys", "used", "isk", "udLen", "cons", "len", "img", "build", "f", "k", "enc", "rot", "files", "path")}
+            v.nontrivial(sha([[{k: x for k, x in e.items() if k in ("a", "c", "fam", "rev", "keys", "used", "isk", "udLen", "cons", "len", "img", "build", "f", "k", "enc", "rot", "files", "path",
+                                                                 "fl", "origin", "init", "cert", "i", "form", "index")}
                                 for e in t["ev"]]]))
     by_id = {t["id"]: t for t in traces}
-    for i in (3, len(jobs) // 2, 1000000, 2000003, 3000005, 4000000 + len(devcases) // 2):
+    for i in (3, len(jobs) // 2, 1000000, 5000000 + len(tabs) // 3, 3000005, 4000000 + len(devcases) // 2, 2000003):
         if i in by_id:
             v.sample(slim(by_id[i]))
 
@@ -1044,8 +1365,11 @@ def run(tier):
     lean = [lean_trace(t) for t in traces]
     chunks = [lean[k:k + 5000] for k in range(0, len(lean), 5000)]
     dev_canaries, dev_expect, dev_pair = canary_dev(devcases)
+    _, tab_expect = canary_tab(tabs)
+    lean = [x for x in lean if x["id"] < 5000000]                       # the history lane was decided beside the generators
+    chunks = [lean[k:k + 5000] for k in range(0, len(lean), 5000)]
     chunks[0] = canary_traces(c0, t0) + dev_canaries + chunks[0]
-    rej, tv_states, tv_errs = {}, [0], []
+    rej, tv_states, tv_errs = dict(tab_rej), [tab_tv], []
     sem = threading.Semaphore(3)
 
     def tv_chunk(part):
@@ -1065,11 +1389,13 @@ def run(tier):
     if tv_errs:
         raise tv_errs[0]
     can = {k: x for k, x in rej.items() if str(k).startswith("canary")}
-    if (set(can) != {"canary-flip", "canary-order", "canary-refused"} | set(dev_expect) or can["canary-flip"][3] != "value" or can["canary-order"][3] != "term"
-            or any(can[k][3] != w for k, w in dev_expect.items())):
+    if (set(can) != {"canary-flip", "canary-order", "canary-refused"} | set(dev_expect) | set(tab_expect) or can["canary-flip"][3] != "value"
+            or can["canary-order"][3] != "term" or any(can[k][3] != w for k, w in list(dev_expect.items()) + list(tab_expect.items()))):
         raise Machinery(f"canary failed: {can}")
     v.extra["canary"] = ("good observation accepted; one flipped bit of the value, the value of another key order, a refusal: rejected; device entry point: "
-                         + ("the value of ANOTHER revision's RoT type and a case typed by another revision: rejected" if dev_pair else "one flipped bit: rejected"))
+                         + ("the value of ANOTHER revision's RoT type and a case typed by another revision: rejected" if dev_pair else "one flipped bit: rejected")
+                         + "; construction history (spec-generated, independently evaluated): good accepted; the value / table of a builder that inserts instead of "
+                           "replacing, a lost write, a refused write, one flipped bit of the table: rejected")
     v.traces(len(traces))
     v.extra["tv_states"] = tv_states[0]
     for tid, (matched, length, evname, why) in rej.items():
@@ -1084,12 +1410,21 @@ def run(tier):
             why = "raised:" + slug(e["crash"])
         elif evname in ("Compute", "ComputeFor", "ReadByPath") and why == "returned":
             why = ("refused" if e["got"]["k"] == "err" else "raised") + ":" + slug(e["got"]["msg"])
+        elif evname == "ComputeT":
+            ob = {"returned": "got", "table": "tbl", "fuses": "fuses", "parsed": "parsed"}.get(why)
+            if ob and e[ob]["k"] != "val":
+                why += ":" + ("refused" if e[ob]["k"] == "err" else "raised") + ":" + slug(e[ob]["msg"])
         key = finding_key(t, matched, evname, why)
         what = f"event #{matched + 1} ({evname}) is not a step of the R-spec: clause '{why}'"
         if evname == "ComputeFor":
             what += f"; {e['fam']} revision {e['rev']} has RoT type {e['c']['rot']}"
         if evname in ("Compute", "ComputeFor", "ReadByPath"):
             what += f"; returned {bytes(e['got']['v']).hex()[:24] or e['got']['msg']}.. expected {bytes(e['want']).hex()[:24]}.."
+        if evname == "ComputeT":
+            what += (f"; after {' '.join(tab_short(x) for x in t['ev'][:matched])} the {t['scen']['fl']} object holds the keys {[k['id'] for k in e['keys']]}: value "
+                     f"{bytes(e['got']['v']).hex()[:24] or e['got']['msg']}.. table {bytes(e['tbl']['v']).hex()[:16]}.. documented construction over these keys {bytes(e['want']).hex()[:24]}..")
+        elif evname in TAB_EVENTS:
+            what += f"; after {' '.join(tab_short(x) for x in t['ev'][:matched])} the call {tab_short(e)} on the {t['scen']['fl']} object: {e.get('crash', '')}"
         v.violation(key, what, {"kind": "case" if evname == "Compute" else "dev" if evname == "ComputeFor" else "history", "trace": slim(t), "failed_event": matched + 1, "why": why})
 
     v.cov["rule"] = (
@@ -1098,10 +1433,14 @@ def run(tier):
         f"{len(extra)} sampled / family sweep (every family of the database through Rot, CMPA, DAT); {len(devcases)} ComputeFor cases = device sweep (every family x "
         f"every silicon revision of the device table and the name 'latest' - {sum(len(d['revs']) + 1 for d in devs)} pairs, "
         f"{sum(1 for d in devs if len(set(d['rots'])) > 1)} family with revisions of different RoT types - x Rot value / Rot table / nxpcrypto -r / CMPA / debug credential); histories: {len(behs['cb21'])} cert-block v2.1, {len(behs['cb1'])} v1, {len(behs['files'])} key-file rewrite; "
+        f"{len(tabs)} construction histories of ONE table object (RKHTv1.set_rkh and CertBlockV1.set_root_key_hash / add_certificate: every order of filling 1..4 slots by "
+        f"index, every single replacement at every position{'' if quick else ' and every pair of replacements (RKHTv1)'}, objects that start empty / from a key list / parsed, value read on the way; HAB SrkTable "
+        "append / table[i] = item; AHAB SRKTable and SRKTableV2 add_record / clear and refill; one CMPA page object exported with key list A, B, A again): value, table, fuse words, exported and re-parsed object = the documented "
+        "construction over the FINAL contents; "
         "a trace is non-trivial if the real code returned a value in it (distinct by the abstract arguments)")
     v.cov["exhaustive"] = False
     v.cov["key_pool"] = f"{nkeys} keys in keys/rot"
-    v.cov["checker_cmd"] = "TLC RotGen (lemmas + emission) ; TLC RotMC ; TLC RotTrace (decides every observation)"
+    v.cov["checker_cmd"] = "TLC RotGen (lemmas + emission) ; TLC RotMC (RotMC.cfg, RotMC_tab.cfg) ; TLC RotTrace (decides every observation)"
     v.cov["trusted_base"] = ["hashlib SHA-2", "`cryptography`: key / certificate loading and ECDSA verification, called directly (never through spsdk.crypto)", "own DER length reader and v1 block walker (struct)", "TLC + CommunityModules (Json, IOUtils)"]
     v.assumptions += [
         "the RoT type of a (family, revision) is a fact of the silicon: frozen table anchors/C03/rot_types_rev.json (revisions added later are classified by the "
@@ -1114,6 +1453,10 @@ def run(tier):
         "debug credentials with RSA-3072 root keys are outside the DAT protocol versions; one password per call (no mix of encrypted and plain private keys)",
         "certificate block v1 with a single self-signed certificate (chains are C02's); ISK key on the curve of the root keys; re-signing a PARSED block is undefined",
         "cert_block_x (4 families) is not named by the property",
+        "construction histories: the value of an object is asserted whenever its contents are a key list of the property (1..4 keys without a hole; four records "
+        "for AHAB); a v1 table with a hole (the configuration front end refuses holes) and an AHAB table with fewer than four records are not asserted - so an "
+        "update_fields() on an incomplete AHAB table (which freezes its length field) is not generated; RKHTv21 / CertBlockV21 / the RoT meta of debug credentials have "
+        "no incremental builder; exporting a v1 block whose certificate key is not in the table is not asserted",
     ]
     return v.finish()
 
@@ -1150,6 +1493,16 @@ def replay(path):
                 break
         if new is None:
             raise Machinery("replay: the generator no longer produces the device case of the witness")
+    elif t["ev"][0]["a"] == "StartT":  # a construction history: the generator's behaviour of the same scenario with the same calls
+        gmenu = (t.get("gen") or ["small", 1])[0]
+        g = gen("tab", gmenu, 1, workers=2, timeout=1500)
+        want = [strip(e) for e in t["ev"]]
+        cand = [b for b in g.json_prints() if b["mode"] == "tab" and b["scen"] == t["scen"] and [strip(e) for e in b["hist"][:len(want)]] == want]
+        if not cand:
+            raise Machinery("replay: the generator no longer produces the history of the witness")
+        beh = dict(cand[0])
+        beh["hist"] = beh["hist"][:len(want)]
+        new = replay_tab((t["id"], beh))
     else:
         raise_if = [e["a"] for e in t["ev"]]
         mode = "cb21" if "Build21" in raise_if else "cb1" if "Build1" in raise_if else "files"
@@ -1177,7 +1530,8 @@ def replay(path):
 
 ARGS = {"Build21": ("keys", "used", "isk", "iskKey", "udLen", "cons"), "SetUserData": ("len",), "SetConstraints": ("cons",),
         "Build1": ("keys", "used", "img", "build"), "SetImageLength": ("img",), "WriteFile": ("f", "k", "enc"),
-        "ReadByPath": ("rot", "files", "path", "used")}
+        "ReadByPath": ("rot", "files", "path", "used"), "StartT": ("fl", "origin", "init", "cert"), "SetSlot": ("i", "k", "form"),
+        "AppendSlot": ("k", "form"), "AddCertificate": ("k",), "SetAll": ("keys",), "ComputeT": ("keys", "index")}
 
 
 def strip(e):
